@@ -41,7 +41,8 @@ Section Cluster.
   Hypothesis Hl_plabel : length (k_plabel g0) = n.
   Hypothesis Hl_clabel : length (k_clabel g0) = n.
   Hypothesis Hc0 : forall i, i < n -> (cost0 i < dens i)%Z.
-  Hypothesis Hbot : forall i, i < n -> (bot < cost0 i)%Z.
+  (* only the [force] flavour ever produces the offer [bot] *)
+  Hypothesis Hbot : force = true -> forall i, i < n -> (bot < cost0 i)%Z.
 
   Definition predf (g : knn) (q : nat) : option nat := nth q (k_pred g) None.
   Definition rootf (g : knn) (q : nat) : nat := nth q (k_root g) 0.
@@ -53,11 +54,11 @@ Section Cluster.
   Definition hc (h : heap Z) (q : nat) : Z := nth q (hcost h) top.
   Definition col (h : heap Z) (q : nat) : color := nth q (hcolor h) White.
 
-  (* the fields the competition never writes *)
+  (* the fields the competition never writes ([k_nclusters] is left out: the unsupervised
+     routine assigns it afterwards) *)
   Definition Frame (g : knn) : Prop :=
     k_label g = k_label g0 /\ k_adj g = k_adj g0 /\ k_radius g = k_radius g0 /\
-    k_nplat g = k_nplat g0 /\ k_dens g = k_dens g0 /\ k_gdens g = k_gdens g0 /\
-    k_nclusters g = k_nclusters g0.
+    k_nplat g = k_nplat g0 /\ k_dens g = k_dens g0 /\ k_gdens g = k_gdens g0.
 
   Record CInv (rem : list nat) (h : heap Z) (g : knn) (lc : nat) : Prop := mkCInv {
     ci_inv : Inv h; ci_size : hsize h = n; ci_pol : hpol h = PMax;
@@ -248,7 +249,7 @@ Section Cluster.
     assert (Hpq : p <> q) by (intros ->; contradiction).
     pose proof (ci_gray _ _ _ _ HC q Hq Hqr) as Hgray.
     pose proof (ci_frame _ _ _ _ HC) as Hfr.
-    destruct Hfr as (Flab & Fadj & Frad & Fnp & Fdens & Fgd & Fnc).
+    destruct Hfr as (Flab & Fadj & Frad & Fnp & Fdens & Fgd).
     change (hcostk top h p) with (hc h p). change (hcostk top h q) with (hc h q).
     assert (Ed : nth q (k_dens g) zero = dens q) by (rewrite Fdens; reflexivity).
     assert (Elp : nth p (k_label g) 0 = lab p) by (rewrite Flab; reflexivity).
@@ -260,7 +261,8 @@ Section Cluster.
     pose proof (cost0_le_hc _ _ _ _ q HC Hq) as Hle0.
     assert (Hcur : cur = Z.min (hc h p) (dens q) /\ (force = true -> lab p = lab q)).
     { unfold cur in *. destruct (force && negb (Nat.eqb (lab p) (lab q))) eqn:Hf.
-      - exfalso. specialize (Hbot q Hq). lia.
+      - exfalso. apply andb_true_iff in Hf. destruct Hf as [Hf _].
+        specialize (Hbot Hf q Hq). lia.
       - split; [reflexivity|]. intros Hfo. rewrite Hfo in Hf. cbn in Hf.
         apply negb_false_iff in Hf. apply Nat.eqb_eq in Hf. exact Hf. }
     destruct Hcur as [Ecur Hforce]. clearbody cur.
@@ -397,7 +399,7 @@ Section Cluster.
     exists p, h1. split; [exact E|]. split; [exact Hpn|].
     assert (Hpr : ~ In p rem).
     { intros Hin. pose proof (ci_black _ _ _ _ HC p Hin). congruence. }
-    destruct (ci_frame _ _ _ _ HC) as (Flab & Fadj & Frad & Fnp & Fdens & Fgd & Fnc).
+    destruct (ci_frame _ _ _ _ HC) as (Flab & Fadj & Frad & Fnp & Fdens & Fgd).
     set (isr := isroot g p).
     set (h2 := rm_h h1 g p).
     assert (HI2 : Inv h2).
@@ -600,21 +602,30 @@ Section Cluster.
     - apply HC.
   Qed.
 
+End Cluster.
+
   (* ---------------- consequences of [Final] ---------------- *)
 
-  Section Consequences.
-    Variables (ord : list nat) (g : knn) (lc : nat).
-    Hypothesis HF : Final ord g lc.
+Section Consequences.
+  Variables (zero : Z) (n : nat) (sup force : bool).
+  Variable nbrs : @knn Z -> nat -> list nat.
+  Variables (g0 : @knn Z) (ord : list nat) (g : @knn Z) (lc : nat).
+  Hypothesis HF : Final zero n sup force nbrs g0 ord g lc.
+  Hypothesis Hc0 : forall i, i < n -> (cost0 zero g0 i < dens zero g0 i)%Z.
+  Notation dens := (dens zero g0).
+  Notation cost0 := (cost0 zero g0).
+  Notation lab := (lab g0).
+  Notation costf := (costf zero).
 
     Lemma fin_in q : q < n <-> In q ord.
     Proof.
       split; intros H.
-      - apply (Permutation_in _ (Permutation_sym (fi_perm _ _ _ HF))). apply in_seq. lia.
-      - apply (Permutation_in _ (fi_perm _ _ _ HF)) in H. apply in_seq in H. lia.
+      - apply (Permutation_in _ (Permutation_sym (fi_perm _ _ _ _ _ _ _ _ _ HF))). apply in_seq. lia.
+      - apply (Permutation_in _ (fi_perm _ _ _ _ _ _ _ _ _ HF)) in H. apply in_seq in H. lia.
     Qed.
 
     Lemma fin_length : length ord = n.
-    Proof. rewrite (Permutation_length (fi_perm _ _ _ HF)). apply seq_length. Qed.
+    Proof. rewrite (Permutation_length (fi_perm _ _ _ _ _ _ _ _ _ HF)). apply seq_length. Qed.
 
     (* every sample reaches exactly one root, in fewer than n steps; its recorded root is
        that root; costs do not increase towards the samples; labels are the root's *)
@@ -632,15 +643,15 @@ Section Cluster.
                    (sup = true -> plab g q = plab g r) /\
                    (sup = false -> clab g q = clab g r) /\
                    (force = true -> lab q = lab r)).
-      destruct (forest_all (predf g) ord (fi_nodup _ _ _ HF)) with (P := P) (q := q)
+      destruct (forest_all (predf g) ord (fi_nodup _ _ _ _ _ _ _ _ _ HF)) with (P := P) (q := q)
         as (r & k & Hk & Hre & Hr & Hrin & HP).
       - intros x p Hx Hp. apply fin_in in Hx.
-        destruct (fi_link _ _ _ HF x p Hx Hp) as (_ & A & _). exact A.
+        destruct (fi_link _ _ _ _ _ _ _ _ _ HF x p Hx Hp) as (_ & A & _). exact A.
       - intros r Hr Hpr. apply fin_in in Hr.
-        destruct (fi_root _ _ _ HF r Hr Hpr) as (A & _). unfold P.
+        destruct (fi_root _ _ _ _ _ _ _ _ _ HF r Hr Hpr) as (A & _). unfold P.
         split; [exact A|]. split; [lia|]. auto.
       - intros x p r Hx Hp Hpin (P1 & P2 & P3 & P4 & P5). apply fin_in in Hx.
-        destruct (fi_link _ _ _ HF x p Hx Hp) as (_ & _ & _ & A & B & _ & C & D & E).
+        destruct (fi_link _ _ _ _ _ _ _ _ _ HF x p Hx Hp) as (_ & _ & _ & A & B & _ & C & D & E).
         unfold P. split; [congruence|]. split; [lia|].
         split; [intros Hs; rewrite (C Hs); apply P3; exact Hs|].
         split; [intros Hs; rewrite (D Hs); apply P4; exact Hs|].
@@ -648,15 +659,15 @@ Section Cluster.
       - apply fin_in. exact Hq.
       - destruct HP as (P1 & P2 & P3 & P4 & P5).
         apply fin_in in Hrin. rewrite fin_length in Hk.
-        destruct (fi_root _ _ _ HF r Hrin Hr) as (A & B & C).
+        destruct (fi_root _ _ _ _ _ _ _ _ _ HF r Hrin Hr) as (A & B & C).
         exists r, k. split; [exact Hk|]. split; [exact Hrin|]. split; [exact Hre|].
         split; [exact Hr|]. split.
         { intros r' Hr'. apply (root_of_unique (predf g) q); [exact Hr'|].
           exists k. split; assumption. }
         split; [exact P1|]. split; [exact P2|]. split; [exact B|]. split.
         { destruct (predf g q) as [p|] eqn:Hp.
-          - destruct (fi_link _ _ _ HF q p Hq Hp) as (_ & _ & _ & _ & _ & F & _). lia.
-          - destruct (fi_root _ _ _ HF q Hq Hp) as (_ & F & _). specialize (Hc0 q Hq). lia. }
+          - destruct (fi_link _ _ _ _ _ _ _ _ _ HF q p Hq Hp) as (_ & _ & _ & _ & _ & F & _). lia.
+          - destruct (fi_root _ _ _ _ _ _ _ _ _ HF q Hq Hp) as (_ & F & _). specialize (Hc0 q Hq). lia. }
         split; [intros Hs; split; [apply P3; exact Hs|apply C; exact Hs]|].
         split; assumption.
     Qed.
@@ -699,7 +710,7 @@ Section Cluster.
          clab g r < lc /\ nth (clab g r) roots_in_order 0 = r) /\
       (forall q, q < n -> clab g q < lc).
     Proof.
-      intros Hs. destruct (fi_ids _ _ _ HF Hs) as [A B]. fold roots_in_order in A, B.
+      intros Hs. destruct (fi_ids _ _ _ _ _ _ _ _ _ HF Hs) as [A B]. fold roots_in_order in A, B.
       assert (Hroots : forall r, r < n -> predf g r = None ->
                 clab g r < lc /\ nth (clab g r) roots_in_order 0 = r).
       { intros r Hr Hpr.
@@ -708,11 +719,10 @@ Section Cluster.
         destruct (In_nth _ _ 0 Hin) as (i & Hi & Ei). rewrite <- A in Hi.
         rewrite <- Ei. rewrite (B i Hi). split; [exact Hi|reflexivity]. }
       split; [exact A|]. split.
-      { rewrite A. apply filter_perm_length. apply (fi_perm _ _ _ HF). }
+      { rewrite A. apply filter_perm_length. apply (fi_perm _ _ _ _ _ _ _ _ _ HF). }
       split; [exact B|]. split; [exact Hroots|].
       intros q Hq.
       destruct (final_forest q Hq) as (r & k & _ & Hr & _ & Hpr & _ & _ & _ & _ & _ & _ & C & _).
       rewrite (C Hs). apply (Hroots r Hr Hpr).
     Qed.
-  End Consequences.
-End Cluster.
+End Consequences.
